@@ -31,42 +31,80 @@ func init() {
 	register("dec", runDec)
 }
 
+// runTranscript: every label and message handed to the transcript is a sub-slice of one
+// arena with spare capacity behind it (as a caller keeping its labels in one table would
+// pass them), so an implementation that appends to / writes through a caller's slice is
+// observed: the arena is compared with a pristine copy after every call.
 func runTranscript(t []string) string {
-	tr := common.NewTranscript(string(unhex(t[1])))
-	var sb strings.Builder
-	sb.WriteString("c")
+	var arena []byte
+	type span struct{ a, b int }
+	put := func(b []byte) span {
+		a := len(arena)
+		arena = append(arena, b...)
+		sp := span{a, len(arena)}
+		for i := 0; i < 40; i++ {
+			arena = append(arena, 0xA5)
+		}
+		return sp
+	}
+	protoSp := put(unhex(t[1]))
+	type opT struct {
+		kind    string
+		l, m    span
+		payload string
+	}
+	var ops []opT
 	for _, op := range t[2:] {
 		p := strings.Split(op, ":")
+		o := opT{kind: p[0]}
+		o.l = put(unhex(p[1]))
 		switch p[0] {
-		case "D":
-			tr.DomainSep(unhex(p[1]))
 		case "M":
-			label, msg := unhex(p[1]), unhex(p[2])
-			l0, m0 := append([]byte(nil), label...), append([]byte(nil), msg...)
-			tr.AppendMessage(msg, label)
-			if !bytes.Equal(l0, label) || !bytes.Equal(m0, msg) {
-				sb.WriteString(" MUTATED-INPUT")
-			}
+			o.m = put(unhex(p[2]))
+		case "S", "P":
+			o.payload = p[2]
+		case "D", "C":
+		default:
+			panic("bad transcript op " + op)
+		}
+		ops = append(ops, o)
+	}
+	pristine := append([]byte(nil), arena...)
+	sl := func(sp span) []byte { return arena[sp.a:sp.b] }
+	var sb strings.Builder
+	check := func() {
+		if !bytes.Equal(arena, pristine) {
+			sb.WriteString(" MUTATED-INPUT")
+			copy(arena, pristine)
+		}
+	}
+	tr := common.NewTranscript(string(sl(protoSp)))
+	sb.WriteString("c")
+	for _, o := range ops {
+		switch o.kind {
+		case "D":
+			tr.DomainSep(sl(o.l))
+		case "M":
+			tr.AppendMessage(sl(o.m), sl(o.l))
 		case "S":
-			s := frOfHex(p[2])
+			s := frOfHex(o.payload)
 			s0 := s
-			tr.AppendScalar(&s, unhex(p[1]))
+			tr.AppendScalar(&s, sl(o.l))
 			if s0 != s {
 				sb.WriteString(" MUTATED-INPUT")
 			}
 		case "P":
-			pt := pointOfTok(p[2])
+			pt := pointOfTok(o.payload)
 			p0 := pt
-			tr.AppendPoint(&pt, unhex(p[1]))
+			tr.AppendPoint(&pt, sl(o.l))
 			if p0 != pt {
 				sb.WriteString(" MUTATED-INPUT")
 			}
 		case "C":
-			c := tr.ChallengeScalar(unhex(p[1]))
+			c := tr.ChallengeScalar(sl(o.l))
 			sb.WriteString(" " + frHex(&c))
-		default:
-			panic("bad transcript op " + op)
 		}
+		check()
 	}
 	return sb.String()
 }
